@@ -136,9 +136,50 @@ def job_two_theta(job, seed):
             cands.append((sig, case, name))
         return ob
 
+    def cos_of(term):
+        """cos of a result term of the form 2*atan2(y, x) or atan2(y, x); None for another structure."""
+        yx_ = _tt_args(term)
+        with C.oracle():
+            if yx_ is not None:
+                y_, x_ = yx_
+                return (x_ * x_ - y_ * y_) / (x_ * x_ + y_ * y_), y_ >= 0
+            a_ = T.fn_atom_of(term.t)
+            if a_ is not None and a_.fn == 'atan2':
+                y_, x_ = C.R(a_.arg[0]), C.R(a_.arg[1])
+                return x_ / C.rsqrt(x_ * x_ + y_ * y_, nonneg=True), y_ >= 0
+        return None
+
+    def gated(x1, x2, paths):
+        """The implementation dispatches on its input (several paths): every path must return the angle between the beams."""
+        with C.oracle():
+            c_ = vdot(vec(x1), vec(x2)) / (n1 * n2)
+        for k_, p_ in enumerate(paths):
+            if p_.inconclusive or p_.exc is not None:
+                obs.append({'name': f'two_theta:{what}:path{k_}:runs', 'status': 'inconclusive' if p_.inconclusive else 'violated', 'detail': str(p_.inconclusive or repr(p_.exc))[:200], 't': 0})
+                if p_.exc is not None:
+                    cands.append(('C03:two_theta:raises', case, repr(p_.exc)))
+                continue
+            co = cos_of(p_.value.value)
+            if co is None:
+                obs.append({'name': f'two_theta:{what}:path{k_}:structure', 'status': 'violated', 't': 0, 'detail': f'result is not an atan2 form: {str(p_.value.value)[:120]}'})
+                cands.append(('C03:two_theta:structure', case, 'result is not an atan2 form'))
+                continue
+            cosr, ynn = co
+            ob = C.prove(f'two_theta:{what}:path{k_}:cos(result) = b1.b2/(|b1||b2|), result in [0, pi]', (cosr == c_) & ynn, pc=p_.pc, timeout_ms=30000)
+            obs.append(ob_dict(ob))
+            if ob.status == 'violated':
+                # a counterexample whose deviation is visible in double precision (for the replay)
+                dev = Fraction(1, 10**6)
+                m = C.solve([*C.CTX.assumptions, *p_.pc, (cosr - c_ > dev) | (c_ - cosr > dev)], timeout_ms=30000)
+                mod = m.model if m.status == 'sat' else ob.model
+                cands.append(('C03:two_theta:value', {**case, 'model': {k2: float(v2) for k2, v2 in (mod or {}).items()}}, 'a code path returns an angle that is not the angle between the beams'))
+
     def call(x1, x2):
         V.WRITE_LOG.clear()
         paths = C.explore(lambda: bl.two_theta(incident_beam=x1, scattered_beam=x2))
+        if len(paths) > 1:
+            gated(x1, x2, paths)
+            return None
         if len(paths) != 1 or paths[0].exc is not None or paths[0].inconclusive:
             p = paths[0]
             st = 'inconclusive' if p.inconclusive else 'violated'
@@ -320,6 +361,8 @@ def run(chk):
     run_jobs(chk, job_euclid, [(True, None), (False, None), (True, 2), (False, 2)])
     run_jobs(chk, job_two_theta, ['definition', 'units', 'symmetry', 'rescale', 'rotation', 'stability-canary'])
     run_jobs(chk, job_stability, [False, True])
+    from . import shimval
+    shimval.validate(chk, 'beamline', 40 if chk.tier == 'quick' else 240)
     chk.bounds = {'arrays': 'scalar and 2 detector pixels', 'values': 'all real position vectors with distinct positions; symbolic length unit'}
     chk.stubs = ['scipp -> symsc (vector arithmetic, norm, atan2(out=), in-place ops with buffer write log)']
     chk.axioms = ['atan2: range/quadrant axioms; cos(2 atan2(y,x)) = (x^2-y^2)/(x^2+y^2)', 'sin^2+cos^2=1',
@@ -351,6 +394,17 @@ def replay_real(case):
         x = mp.sqrt(sum((a + b) ** 2 for a, b in zip(uu, vv, strict=True)))
         return 2 * mp.atan2(y, x)
 
+    if case['kind'] == 'two_theta' and case.get('model') and any(k.startswith('b1_') for k in case['model']):
+        m = case['model']
+        sL = m.get('L', 1.0) or 1.0
+        u = [m.get(f'b1_{c}', 0.0) for c in 'xyz']
+        v = [m.get(f'b2_{c}', 0.0) for c in 'xyz']
+        # the symbolic length unit 'L' has scale sL metres: present the same numbers in metres
+        got = rb.two_theta(incident_beam=sc.vector(u, unit='m'), scattered_beam=sc.vector(v, unit='m')).value
+        exp = float(mpang(u, v))
+        if abs(got - exp) > 1e-12 * max(1.0, abs(exp)) + 1e-13:
+            bad.append(f'two_theta({u}, {v}) = {got!r}, angle between the beams = {exp!r}')
+        return {'reproduced': bool(bad), 'detail': '; '.join(bad[:2])}
     if case['kind'] == 'two_theta':
         for trial in range(300):
             u = rng.normal(size=3) * 10 ** rng.uniform(-6, 6)
